@@ -58,8 +58,24 @@ def dns_cases(rng, tier):
         out.append(('dns-rnd-%d' % k, ['harness hdns'] + ops))
     return out
 
+def dynsrv_cases(rng, tier):
+    """dynamic discovery through SRV answers: ports 0..65535 incl. every digit count, several records, equal priorities"""
+    out = []
+    ops = []
+    hosts = [b'10.9.8.7', b'192.0.2.1', b'10.1.2.3']
+    for port in [0, 1, 9, 10, 99, 100, 999, 1000, 2083, 9999, 10000, 12345, 65535]:
+        ops.append('op dynsrv %s %d:0:%d:%s' % (hx(b'bob@dyn.example'), rng.randrange(100), port, hx(rng.choice(hosts))))
+    for _ in range(60 if tier == 'thorough' else 10):
+        recs = ['%d:%d:%d:%s' % (rng.choice([0, 1, 1, 5, 10, 65535]), rng.randrange(100), rng.choice([1, 1812, 2083, 10000, 65535, rng.randrange(65536)]), hx(rng.choice(hosts)))
+                for _ in range(rng.randrange(1, 6))]
+        ops.append('op dynsrv %s %s' % (hx(b'bob@dyn.example'), ' '.join(recs)))
+    ops.append('op dynsrv %s' % hx(b'bob@dyn.example') + ' ')
+    for i, c in enumerate(batch(ops, 'dynsrv', 8)):
+        out.append((c[0], ['cfg nopipe'] + c[1]))
+    return out
+
 def generate(rng, tier):
-    out = dns_cases(rng, tier)
+    out = dns_cases(rng, tier) + dynsrv_cases(rng, tier)
     for name in ('C05', 'C04', 'C06', 'C01', 'C18', 'C15', 'C02', 'C03', 'C16'):
         mod = importlib.import_module(name)
         sub = mod.generate(rng, 'quick' if tier == 'quick' else 'thorough')
